@@ -8,7 +8,7 @@ use crate::refcodec;
 use crate::refops;
 use crate::tree::{hex, Tree};
 
-const PREFILL: &[u8] = &[0x80, 0, 0, 1, 0x55, 0xAA];
+const PREFILL: &[u8] = &[0x5A, 0x80, 0, 0, 1, 0x55, 0xAA];
 
 fn pool_array(rng: &mut Rng, pool: &[Tree]) -> Tree {
     match rng.below(12) {
